@@ -11,7 +11,7 @@ from vf import common, gnuref, x86ref, x86space
 from vf.checks.c03 import family
 
 PROPERTY = 'C09'
-RULE = ('the C01 byte space without redundant prefixes (opcode cells x 256 ModRM x SIB/filler classes, prefixes none/66 and a reduced set for 67/segment/rep/lock), '
+RULE = ('the C01 byte space without redundant prefixes (opcode cells x 256 ModRM x SIB/filler classes, prefixes none/66 and a reduced set for 67/segment/rep/lock; the SIB classes include base == index with a scale), '
         'strings decoded by miasmX with the reference length. Renderings: Intel, AT&T (binutils), AT&T (objdump immediate format). Clause 1 on canonical strings '
         '(as(objdump(b)) == b): b must be among asm_att(AT&T rendering). Clause 2 on compiler-emittable instructions (no relative branch, no absolute numeric memory '
         'operand): GNU as must accept each rendering in the matching mode and objdump must read the result like b. A case = (bytes, rendering kind); non-trivial = the '
@@ -135,14 +135,16 @@ def analyse(sh, items):
 
 def shards(tier, seed):
     cl = x86space.cells()
-    return [('cells', i, 8) for i in range(0, len(cl), 8)] + [('prefixes', i, 64) for i in range(0, len(cl), 64)]
+    return [('cells', i, 8) for i in range(0, len(cl), 8)] + [('prefixes', i, 64) for i in range(0, len(cl), 64)] + [('grids', 0, 0)]
 
 
 def run_shard(shard, tier, seed):
     sh = common.Shard()
     cl = x86space.cells()[shard[1]:shard[1] + shard[2]]
     items = []
-    if shard[0] == 'cells':
+    if shard[0] == 'grids':
+        items = list(x86space.sib_grid(tier)) + list(x86space.disp_grid(tier))
+    elif shard[0] == 'cells':
         for cell in cl:
             for b, cls in x86space.strings_for_cell(cell, tier, seed, prefixes=x86space.STD_PREFIXES, sibs=x86space.SIB_QUICK[:4] if tier == 'quick' else x86space.SIB_QUICK + x86space.SIB_ALL64[::5],
                                                     nfill=0 if tier == 'quick' else 2):
